@@ -106,6 +106,13 @@ def exact_cases(tier, seed):
         S2 = kc.make_sys(r, 3, sym, "id", x0zero=False)
         S2.f = [F(1, 2 ** 70), F(0), F(-1, 2 ** 71)]
         out.append(kc.solve_line("e%d" % len(out), solver, "right", S2, maxiter=2, tol=F(1, 4), ns=1, M=2, L=1, s=2))
+        # ns_search = true with an ORDINARY right-hand side (norm neither 0 nor 1): the flag only concerns the zero right-hand side,
+        # the returned residual stays relative to ||f|| (seeded C01-7)
+        S4 = kc.make_sys(r, 3, sym, "diag", x0zero=False)
+        S4.f = [v * F(1, 1024) for v in S4.f] if r.random() < 0.5 else [v * 1000 for v in S4.f]
+        if all(v == 0 for v in S4.f): S4.f[0] = F(3, 1024)
+        for mi in (1, 2):
+            out.append(kc.solve_line("e%d" % len(out), solver, "right", S4, maxiter=mi, tol=F(1, 4), ns=1, M=2, L=1, s=2))
         S3 = kc.make_sys(r, 3, sym, "id", x0zero=False)
         S3.f = kc.matvec(kc.dense(S3.rows, 3), S3.x0)            # x0 is the exact solution
         if all(v == 0 for v in S3.f): S3.x0[0] += 1; S3.f = kc.matvec(kc.dense(S3.rows, 3), S3.x0)
